@@ -16,11 +16,24 @@ Generator : a scenario = 1-4 history files in a scratch $XONSH_DATA_DIR (generat
             starting session launches.  Scenarios are drawn by Hypothesis, stratified by operation
             kind so every kind is present in every run.  clear() is excluded (meant to destroy).
 Enumeration: the operation is run once in a forked child with counting wrappers around the
-            file-system entry points (open / io.open incl. os.fdopen and pathlib, text-file
-            read / write / close, binary opens, os.open / os.write, os.replace / rename,
-            os.remove / unlink, os.truncate / ftruncate, tempfile.mkstemp) restricted to the data
-            dir -> op trace of length N (self-check: every file that changed must be explained by a
-            wrapped op, else harness error).  This is done under three BUFFERING MODELS (the size
+            file-system entry points (open / io.open / _io.open incl. os.fdopen, pathlib and
+            tempfile.NamedTemporaryFile, text-file read / write / close, binary writable handles at raw
+            write level, os.open / os.write, os.sendfile / os.copy_file_range, os.replace / rename,
+            os.remove / unlink, os.truncate / ftruncate, os.utime / os.chmod, tempfile.mkstemp - so the
+            calls of a copy fall-back (shutil.move / copy2: open "wb" of the destination, sendfile,
+            copystat, unlink of the source) are ops too) restricted to the data dir and the
+            process-wide temp directory -> op trace of length N; an op that fails by itself (EXDEV)
+            is marked in the trace (self-check: every file that changed must be explained by a
+            wrapped op, else harness error).  TEMP-DIR MODELS: tempfile.tempdir / $TMPDIR point to a
+            directory on the file system of the history directory (`same`) or on ANOTHER file system
+            (`xdev`: found at run time by st_dev among /dev/shm, /var/tmp, /tmp ...; removed
+            afterwards; when the machine has none the model is reported as NOT covered in the
+            evidence notes).  Under `xdev` a rename/replace out of the temp directory fails with EXDEV
+            and "move" helpers fall back to an in-place copy.  The reference run under `xdev` is
+            compared with the one under `same` (ops, outcomes, resulting files): equal = the
+            operation never uses the process-wide temp directory, nothing to enumerate; different =
+            every point is enumerated under `xdev` too (real buffering model in quick, all three in
+            thorough).  This is done under three BUFFERING MODELS (the size
             of Python's write buffer depends on st_blksize and the interpreter, not on xonsh):
             `real` = the interpreter's own FileIO -> BufferedWriter(default size, measured) ->
             TextIOWrapper stack with ops counted at the RAW level - one "write" op per write(2) the
@@ -29,11 +42,15 @@ Enumeration: the operation is run once in a forked child with counting wrappers 
             `huge` = same stack, 4 MiB buffer (nothing reaches the file before flush/close);
             `wt` = every completed Python-level write() is on disk at once.  A model whose reference
             trace equals one already enumerated for the scenario is skipped (same executions); in the
-            2nd/3rd model points at read-only ops are skipped (same states) and one errno per op is used.  Then, each in a fresh fork on a freshly materialised
-            copy of the scenario: EVERY crash point k in 0..N-1 (os._exit(9) before op k; unflushed
-            user-space buffers are lost, as with kill -9), for every write op a crash after a
-            PARTIAL write of m bytes (all m for writes <= 64 bytes, else 0, 1, 57, 69, n/2, n-2,
-            n-1), and EVERY single fault: op k raises OSError(errno) and the operation continues
+            models after the first, points at read-only ops are skipped (same states) and one errno per
+            op is used; quick tier: there also 3 instead of 6 partial lengths, injected errors only
+            under the real io stack, one (rotating) errno per failing open-for-reading.  Then, each in
+            a fresh fork on a freshly materialised copy of the scenario (two points in flight per
+            worker, each in its own copy of the data directory): EVERY crash point k in 0..N-1
+            (os._exit(9) before op k; unflushed user-space buffers are lost, as with kill -9; the point
+            before a read-only op is the same state as the one before the next op and is not run
+            twice), for every write / sendfile op a crash after a PARTIAL transfer of m bytes (all m
+            for <= 64 bytes, else 1, 57, 69, n/2, n-2, n-1), and EVERY single fault: op k raises OSError(errno) and the operation continues
             (errno per op class out of ENOSPC / EIO / EACCES / EMFILE; a failing write leaves half
             of its bytes behind).  Each fault run reports the op it hit; a mismatch with the
             reference trace is a harness error (op numbering must be reproducible).
@@ -46,8 +63,11 @@ Oracle    : in the parent, after the child is gone.  For every history file that
             file under GC, the complete old version with the lock cleared.  Anything else - empty,
             truncated, unloadable, a third command list - is a failure.  Left-over *.json.tmp
             files are allowed; a left-over file that xonsh enumerates as a history file
-            (xonsh-*.json) and that does not load is a failure ("stray").  The un-faulted run is itself checked against a model written from
-            the property text (flush: old + buffered; delete: the filtered list; erasedups: a
+            (xonsh-*.json) and that does not load is a failure ("stray").  An operation that rewrites
+            a file twice, each time atomically (flush, then the at-exit flush), may leave the complete
+            version in between: the complete NEW command list, no field invented, no field dropped
+            that both versions have, every other field with its old or its new value.  The
+            un-faulted run is itself checked against a model written from the property text (flush: old + buffered; delete: the filtered list; erasedups: a
             sub-sequence that keeps at least one copy of every command; GC: same commands, a live
             session's file stays locked).
 SQLite    : a syscall-level pass: a small driver process (this file, --driver) runs append /
@@ -55,17 +75,19 @@ SQLite    : a syscall-level pass: a small driver process (this file, --driver) r
             database, under `strace -f -e inject=<syscall>:signal=KILL:when=K` for every
             write-class syscall (write, pwrite64, fsync, fdatasync, ftruncate, unlink, rename ...)
             and every K it reaches after the operation started (strace counts per syscall and per
-            tracee); all points in thorough, an even sample of 24 per case in quick.  Oracle: the
+            tracee); all points in thorough, an even sample of 18 per case in quick.  Oracle: the
             database opens, PRAGMA integrity_check = ok, the rows are exactly the old set, the new
             set, or (append) old + a prefix of the appended commands.  The same pass is run for
             the JSON backend (one scenario per operation kind in quick, 200 in thorough; every kill
-            point) as a cross-check of the Python-level op model that does not depend on how xonsh
-            or the io stack are structured.
+            point; each scenario once more with $TMPDIR on another file system, enumerated when the
+            syscall sequence or the result differs) as a cross-check of the Python-level op model
+            that does not depend on how xonsh, shutil or the io stack are structured.
 Known     : C13-F1 (GC unlock rewrite is an in-place open(f, 'w')), C13-F2 (flush treats an
             OSError while *reading* its intact file as "corrupt, start empty" and replaces the
             file with only the buffered commands).  Narrow predicates is_f1 / is_f2; exactly those
-            outcomes are tolerated in the generated campaign (counted in excluded_known) and
-            exercised by the replay tier.
+            outcomes are tolerated in the generated campaign (counted in excluded_known) as long as
+            the finding is OPEN in known_findings.json - the shape of a repaired finding (F1) is a
+            violation again - and exercised by the replay tier.
 """
 
 from __future__ import annotations
@@ -94,7 +116,8 @@ HOOKS = False
 RULE = ("scenario (1-4 generated JSON history files: unlocked / locked-live / locked-stale, open / closed, "
         "optional corrupt member, three locations) x one rewriting operation (flush thread, flush at exit, "
         "exit hook, buffer-full flush, delete(pattern), erasedups, GC enumeration, run_gc, start-up GC) drawn by "
-        "Hypothesis, payloads below and above the write buffer; per scenario and per buffering model (real io stack "
+        "Hypothesis, payloads below and above the write buffer; $TMPDIR on the history file system and (enumerated "
+        "when the operation's calls, outcomes or result differ) on another file system; per scenario and per buffering model (real io stack "
         "with ops counted at raw write(2) level / nothing on disk before flush or close / every write() on disk at "
         "once) EVERY crash point before each file-system op, EVERY listed "
         "partial-write length of each write op and EVERY single injected OSError per op are executed in "
@@ -103,7 +126,7 @@ RULE = ("scenario (1-4 generated JSON history files: unlocked / locked-live / lo
         "and the point lies inside the rewriting window: a crash after the first and not after the last "
         "mutating op, any partial write, a fault on an op up to the last mutating op; strace: a kill at a "
         "write-class syscall issued after the operation started.  distinct = hash of (scenario, operation, "
-        "buffering model, mode, k, m / errno)")
+        "buffering model, temp-dir model, mode, k, m / errno)")
 
 NOW = 1_700_000_000.0
 BOOT = NOW - 1_000_000.0
@@ -124,11 +147,18 @@ OP_KINDS = FLUSH_KINDS + ("delete", "erasedups") + GC_KINDS
 #   huge - same stack with a 4 MiB buffer: nothing reaches the file before flush()/close()
 #   wt   - write-through: every completed Python-level write() is on disk at once (a tiny buffer / explicit flush)
 BUFS = ("real", "huge", "wt")
+# Where the process-wide temp directory ($TMPDIR / tempfile.tempdir) lives: on the file system of the history
+# directory, or on ANOTHER one (tmpfs /tmp vs. $HOME on disk): rename/replace from there fails with EXDEV and
+# "move" helpers fall back to an in-place copy.  A history writer must stage its new version next to the target.
+TMPS = ("same", "xdev")
+XDEV_CANDIDATES = ("/dev/shm", "/var/tmp", "/tmp", "/run/user/%d" % os.getuid())
+XDEV_PREFIX = "c13-xdev-"
+WRITE_OPS = ("write", "oswrite", "sendfile")
 HUGE_BUF = 4 << 20
 BULK_INPS = ("ls -la /srv/data/d", "echo value", "git log -n")
 
-MUTATING = ("open-w", "fdopen-w", "osopen-w", "write", "bwrite", "oswrite", "close-w", "mkstemp", "replace", "rename",
-            "remove", "unlink", "truncate", "ftruncate")
+MUTATING = ("open-w", "fdopen-w", "osopen-w", "write", "bwrite", "oswrite", "sendfile", "close-w", "mkstemp", "replace",
+            "rename", "remove", "unlink", "truncate", "ftruncate")
 READ_ONLY = ("open-r", "fdopen-r", "osopen-r", "read")
 ERRNOS = {
     "open-r": ("EACCES", "EIO", "EMFILE"),
@@ -142,6 +172,9 @@ ERRNOS = {
     "write": ("ENOSPC", "EIO"),
     "bwrite": ("ENOSPC", "EIO"),
     "oswrite": ("ENOSPC", "EIO"),
+    "sendfile": ("ENOSPC", "EIO"),
+    "utime": ("EPERM",),
+    "chmod": ("EPERM",),
     "close-w": ("ENOSPC", "EIO"),
     "replace": ("ENOSPC", "EACCES", "EIO"),
     "rename": ("ENOSPC", "EACCES", "EIO"),
@@ -209,6 +242,72 @@ def _setup(scratch):
     return _state
 
 
+def _sweep_xdev(parent, max_age=3 * 3600.0):
+    """Remove scratch directories of dead earlier runs (a killed worker cannot clean up after itself)."""
+    try:
+        names = os.listdir(parent)
+    except OSError:
+        return
+    for n in names:
+        p = os.path.join(parent, n)
+        try:
+            if n.startswith(XDEV_PREFIX) and _real_time.time() - os.stat(p).st_mtime > max_age:
+                shutil.rmtree(p, ignore_errors=True)
+        except OSError:
+            pass
+
+
+def _tmpdir(tmp):
+    """The directory tempfile.tempdir / $TMPDIR point to under model `tmp` (created lazily, per process).
+    'xdev' -> a fresh directory on a file system other than the one of the history directory, or None when
+    this machine has no second writable file system."""
+    dirs = _state.setdefault("tmpdirs", {})
+    if tmp in dirs:
+        return dirs[tmp]
+    if tmp == "same":
+        d = os.path.join(_state["base"], "tmpdir")
+        os.makedirs(d, exist_ok=True)
+    else:
+        import atexit
+        import tempfile
+
+        d = None
+        os.makedirs(_state["data"], exist_ok=True)
+        dev = os.stat(_state["data"]).st_dev
+        for cand in XDEV_CANDIDATES:
+            try:
+                if os.path.isdir(cand) and os.access(cand, os.W_OK | os.X_OK) and os.stat(cand).st_dev != dev:
+                    _sweep_xdev(cand)
+                    d = tempfile.mkdtemp(prefix="%s%d-" % (XDEV_PREFIX, os.getpid()), dir=cand)
+                    break
+            except OSError:
+                continue
+        if d is not None:
+            atexit.register(shutil.rmtree, d, True)
+    dirs[tmp] = d
+    return d
+
+
+def _drop_tmpdirs():
+    """Remove the scratch directory on the other file system (multiprocessing workers skip atexit)."""
+    d = (_state.get("tmpdirs") or {}).pop("xdev", None)
+    if d:
+        shutil.rmtree(d, ignore_errors=True)
+
+
+def _wipe(d):
+    shutil.rmtree(d, ignore_errors=True)
+    os.makedirs(d, exist_ok=True)
+
+
+def _open_findings():
+    """Ids of the findings that are still open: only those are tolerated in the generated campaign - the
+    shape of a repaired one coming back (or a different change producing it) is a violation."""
+    if "open_ids" not in _state:
+        _state["open_ids"] = {e["id"] for e in common.load_known(PROP) if e.get("status") == "open"}
+    return _state["open_ids"]
+
+
 def _probe_bufsize(dirpath):
     """The write-buffer size open() really picks for a file in the scratch file system (st_blksize and
     interpreter dependent), found by experiment: bytes accepted before the first one reaches the file."""
@@ -274,9 +373,24 @@ def _file_bytes(meta, corrupt):
     raise common.HarnessError("bad corrupt kind %r" % corrupt)
 
 
-def build_scenario(scn):
+def _slots():
+    """How many crash / fault points one worker keeps in flight (each in its own copy of the data directory).
+    The points are independent fork-run-exit cycles; overlapping them hides the scheduling latency of a busy host."""
+    try:
+        return max(1, min(8, int(os.environ.get("VERIF_C13_SLOTS") or 2)))
+    except ValueError:
+        return 2
+
+
+def _slot_data(slot):
+    """Data directory of in-flight slot `slot` (slot 0: the worker's ordinary one)."""
+    base = _state.setdefault("data0", _state["data"])
+    return base if not slot else "%s-s%d" % (base, slot)
+
+
+def build_scenario(scn, data=None):
     """-> list of dicts {spec, path, rel, bytes, mtime, meta}; self-checks that intact members load."""
-    st = _state
+    st = {"data": data or _state["data"]}
     out = []
     counter = [0]
     for i, fs in enumerate(scn["files"]):
@@ -291,8 +405,23 @@ def build_scenario(scn):
     return out
 
 
-def materialize(entries):
-    data = _state["data"]
+def _slot_tmp(tmp, slot=0):
+    d = _tmpdir(tmp)
+    return d if (d is None or not slot) else os.path.join(d, "s%d" % slot)
+
+
+def materialize(entries, tmp=None, data=None, slot=0):
+    data = data or _state["data"]
+    if tmp is not None and _tmpdir(tmp):
+        if slot:
+            _wipe(_slot_tmp(tmp, slot))
+        else:                               # slot 0 owns the files directly in the directory, not the slot sub-directories
+            d = _tmpdir(tmp)
+            os.makedirs(d, exist_ok=True)
+            for n in os.listdir(d):
+                q = os.path.join(d, n)
+                if not (os.path.isdir(q) and re.fullmatch(r"s\d+", n)):
+                    shutil.rmtree(q, ignore_errors=True) if os.path.isdir(q) else os.unlink(q)
     shutil.rmtree(data, ignore_errors=True)
     os.makedirs(os.path.join(data, "history_json"))
     for e in entries:
@@ -342,10 +471,10 @@ def snapshot(entries):
     return snap
 
 
-def stray_history_files(entries):
+def stray_history_files(entries, data=None):
     """Files the operation left behind that xonsh will enumerate as history files (xonsh-*.json in
     history_json/ or in the data dir) although the scenario never had them -> [(rel, bytes)]."""
-    data = _state["data"]
+    data = data or _state["data"]
     known = {e["path"] for e in entries}
     out = []
     for d in (os.path.join(data, "history_json"), data):
@@ -366,8 +495,9 @@ def stray_history_files(entries):
 
 
 class _Injector:
-    def __init__(self, root, plan, wfd, buf="wt"):
+    def __init__(self, root, plan, wfd, buf="wt", tmproot=None):
         self.root = os.path.realpath(root)
+        self.tmproot = os.path.realpath(tmproot) if tmproot else None
         self.buf = buf
         self.plan = plan
         self.wfd = wfd
@@ -395,6 +525,14 @@ class _Injector:
         if not (p == self.root or p.startswith(self.root + os.sep)):
             rp = os.path.realpath(p)
             if not rp.startswith(self.root + os.sep):
+                t = self.tmproot
+                if t and (rp == t or rp.startswith(t + os.sep)):        # the process-wide temp directory
+                    rel = os.path.relpath(rp, t)
+                    if rel == ".":
+                        return "<tmpdir>"
+                    if p in self.tmpnames or rp in self.tmpnames or rel.endswith(".tmp") or re.search(r"(^|/)tmp[^/]*$", rel):
+                        rel = os.path.join(os.path.dirname(rel), "<tmp>")
+                    return os.path.join("<tmpdir>", rel)
                 return None
             p = rp
         rel = os.path.relpath(p, self.root)
@@ -411,7 +549,7 @@ class _Injector:
             return None
         self.report({"hit": [k, kind, label]})
         if p["mode"] == "crash":
-            if p.get("m") is None or kind not in ("write", "oswrite"):
+            if p.get("m") is None or kind not in WRITE_OPS:
                 os._exit(9)
             return ("partial", p["m"])
         return ("fault", p["errno"])
@@ -419,6 +557,26 @@ class _Injector:
     def fail(self, act, label):
         code = getattr(_errno, act[1])
         raise OSError(code, os.strerror(code), label)
+
+    def published(self, rel, path, opener):
+        """Reference run: a completed rename/replace has just put a version of a history file in place - the only
+        way a complete version appears atomically.  Its content is reported; the complete (loadable) ones are the
+        versions a kill may legitimately leave behind, besides the previous and the final one."""
+        self.depth += 1
+        try:
+            with opener(path, "rb") as f:
+                raw = f.read()
+        except OSError:
+            return
+        finally:
+            self.depth -= 1
+        self.report({"pub": [rel, raw.hex()]})
+
+    def natural(self, idx, err):
+        """Op idx failed by itself (EXDEV from a rename across file systems ...): part of the trace, so that
+        two environments with the same calls but different outcomes are not taken for the same execution."""
+        if 0 <= idx < len(self.trace) and len(self.trace[idx]) == 3:
+            self.trace[idx].append(_errno.errorcode.get(getattr(err, "errno", None), "OSError"))
 
 
 def _install(inj):
@@ -431,6 +589,9 @@ def _install(inj):
     o_osopen, o_oswrite, o_osclose = os.open, os.write, os.close
     o_replace, o_rename, o_remove, o_unlink = os.replace, os.rename, os.remove, os.unlink
     o_truncate, o_ftruncate = os.truncate, os.ftruncate
+    o_utime, o_chmod = os.utime, os.chmod
+    o_sendfile = getattr(os, "sendfile", None)
+    o_cfr = getattr(os, "copy_file_range", None)
     o_mkstemp = tempfile.mkstemp
 
     class CText(io.TextIOWrapper):
@@ -492,6 +653,19 @@ def _install(inj):
                 inj.fail(act, self._c13_label)
             return super().write(b)
 
+        def close(self):
+            if not self.closed:
+                try:
+                    inj.fdmap.pop(self.fileno(), None)
+                except (OSError, ValueError):
+                    pass
+            return super().close()
+
+    def _path_of(file):
+        if isinstance(file, int):
+            return inj.fdmap.get(file)
+        return os.path.abspath(os.fsdecode(os.fspath(file)))
+
     def w_open(file, mode="r", buffering=-1, encoding=None, errors=None, newline=None, closefd=True, opener=None):
         label = None if (inj.depth or not inj.active) else inj.label(file)
         if label is None:
@@ -501,11 +675,26 @@ def _install(inj):
         act = inj.op(kind, label)
         if act is not None:
             inj.fail(act, label)
+        if "b" in mode and writing and inj.buf != "wt":
+            # binary writable handle (shutil's copy fall-back ...) under the raw-level models: the same stack as the
+            # interpreter's, writes counted per write(2); sendfile / copy_file_range onto its fd are ops of their own
+            fio = CRaw(file, mode.replace("b", ""), closefd=closefd, opener=opener)
+            fio._c13_label = label
+            inj.fdmap[fio.fileno()] = _path_of(file)
+            if buffering == 0:
+                return fio
+            try:
+                bs = HUGE_BUF if inj.buf == "huge" else buffering if buffering > 1 else _state["bufsize"]
+                return (io.BufferedRandom if "+" in mode else io.BufferedWriter)(fio, bs)
+            except BaseException:
+                fio.close()
+                raise
         if "b" in mode:
-            # binary handles: the I/O on them is not wrapped (shutil uses sendfile on the raw fds); a writable
-            # one gets a synthetic op right after the open = "the data has not been written yet"
+            # write-through model: the I/O on binary handles is not wrapped; a writable one gets a synthetic op
+            # right after the open = "the data has not been written yet" (sendfile onto its fd is counted)
             f = o_open(file, mode, buffering, encoding, errors, newline, closefd, opener)
             if writing:
+                inj.fdmap[f.fileno()] = _path_of(file)
                 act = inj.op("bwrite", label)
                 if act is not None:
                     f.close()
@@ -579,10 +768,18 @@ def _install(inj):
             if ls is None and ld is None:
                 return orig(src, dst)
             label = "%s -> %s" % (ls, ld)
+            idx = inj.n
             act = inj.op(kind, label)
             if act is not None:
                 inj.fail(act, label)
-            return orig(src, dst)
+            try:
+                r = orig(src, dst)
+            except OSError as e:
+                inj.natural(idx, e)
+                raise
+            if inj.plan is None and ld is not None and not ld.startswith("<tmpdir>") and not ld.endswith("<tmp>"):
+                inj.published(ld, dst, o_open)
+            return r
         return w
 
     def _one(kind, orig):
@@ -592,14 +789,57 @@ def _install(inj):
             label = inj.label(path)
             if label is None:
                 return orig(path, *a, **kw)
+            idx = inj.n
             act = inj.op(kind, label)
             if act is not None:
                 inj.fail(act, label)
-            return orig(path, *a, **kw)
+            try:
+                return orig(path, *a, **kw)
+            except OSError as e:
+                inj.natural(idx, e)
+                raise
         return w
 
+    def _remaining(in_fd, offset, count):
+        try:
+            pos = offset if offset is not None else os.lseek(in_fd, 0, os.SEEK_CUR)
+            return max(0, min(count, os.fstat(in_fd).st_size - pos))
+        except OSError:
+            return count
+
+    def w_sendfile(out_fd, in_fd, offset, count, *a, **kw):
+        label = None if (inj.depth or not inj.active or a or kw or out_fd == inj.wfd) else inj.label(out_fd)
+        if label is None:
+            return o_sendfile(out_fd, in_fd, offset, count, *a, **kw)
+        nb = _remaining(in_fd, offset, count)
+        act = inj.op("sendfile", label, nb)
+        if act is not None:
+            m = act[1] if act[0] == "partial" else nb // 2
+            if m:
+                o_sendfile(out_fd, in_fd, offset, m)
+            if act[0] == "partial":
+                os._exit(9)
+            inj.fail(act, label)
+        return o_sendfile(out_fd, in_fd, offset, count)
+
+    def w_cfr(src, dst, count, offset_src=None, offset_dst=None):
+        label = None if (inj.depth or not inj.active or dst == inj.wfd) else inj.label(dst)
+        if label is None:
+            return o_cfr(src, dst, count, offset_src, offset_dst)
+        nb = _remaining(src, offset_src, count)
+        act = inj.op("sendfile", label, nb)
+        if act is not None:
+            m = act[1] if act[0] == "partial" else nb // 2
+            if m:
+                o_cfr(src, dst, m, offset_src, offset_dst)
+            if act[0] == "partial":
+                os._exit(9)
+            inj.fail(act, label)
+        return o_cfr(src, dst, count, offset_src, offset_dst)
+
     def w_mkstemp(suffix=None, prefix=None, dir=None, text=False):
-        label = None if (inj.depth or not inj.active or dir is None) else inj.label(dir)
+        # dir=None: the process-wide temp directory ($TMPDIR), which the harness places per environment model
+        label = None if (inj.depth or not inj.active) else inj.label(dir if dir is not None else tempfile.gettempdir())
         if label is None:
             return o_mkstemp(suffix, prefix, dir, text)
         label = os.path.join(label, "<tmp>")
@@ -626,7 +866,19 @@ def _install(inj):
     os.unlink = _one("unlink", o_unlink)
     os.truncate = _one("truncate", o_truncate)
     os.ftruncate = _one("ftruncate", o_ftruncate)
+    os.utime = _one("utime", o_utime)           # copystat of a copy fall-back
+    os.chmod = _one("chmod", o_chmod)
+    if o_sendfile is not None:
+        os.sendfile = w_sendfile
+    if o_cfr is not None:
+        os.copy_file_range = w_cfr
     tempfile.mkstemp = w_mkstemp
+    try:                                        # tempfile.NamedTemporaryFile & co. open through _io.open
+        import _io
+
+        _io.open = w_open
+    except (ImportError, AttributeError, TypeError):
+        pass
     # deterministic directory order (independent of the file system's hashing)
     o_listdir = os.listdir
 
@@ -718,7 +970,18 @@ def _perform(scn, hist):
         raise common.HarnessError("bad op kind %r" % kind)
 
 
-def _child(scn, entries, plan, wfd, buf="wt"):
+def _use_tmpdir(d):
+    """Point the process-wide temp directory (tempfile.tempdir, $TMPDIR and friends) to d."""
+    import tempfile
+
+    if d:
+        for v in ("TMPDIR", "TEMP", "TMP"):
+            os.environ[v] = d
+        tempfile.tempdir = d
+    return d
+
+
+def _child(scn, entries, plan, wfd, buf="wt", tmp="same"):
     """Runs in the forked child; never returns."""
     code = 70
     try:
@@ -730,7 +993,8 @@ def _child(scn, entries, plan, wfd, buf="wt"):
         thread_exc = []
         threading.excepthook = lambda a: thread_exc.append("%s: %s" % (getattr(a.exc_type, "__name__", "?"), a.exc_value))
         hist = _make_history(scn, entries)
-        inj = _Injector(_state["data"], plan, wfd, buf)
+        tmproot = _use_tmpdir(_tmpdir(tmp))
+        inj = _Injector(_state["data"], plan, wfd, buf, tmproot)
         _install(inj)
         exc = None
         try:
@@ -753,17 +1017,32 @@ def _child(scn, entries, plan, wfd, buf="wt"):
         os._exit(code)
 
 
-def run_point(scn, entries, plan, buf="wt"):
-    """Materialise, fork, run the operation under `plan`, wait.  -> dict(msgs..., status)."""
+def start_point(scn, entries, plan, buf="wt", tmp="same", data=None, slot=0):
+    """Materialise, fork, let the child run the operation under `plan`.  -> handle for finish_point().
+    entries must have been built for `data` (the slot's own data directory)."""
     if threading.active_count() != 1:
         raise common.HarnessError("cannot fork: %d threads alive in the worker" % threading.active_count())
-    materialize(entries)
+    if _tmpdir(tmp) is None:
+        raise common.HarnessError("no directory for the temp-dir model %r on this machine" % tmp)
+    data = data or _state["data"]
+    materialize(entries, tmp, data, slot)
     r, w = os.pipe()
     pid = os.fork()
     if pid == 0:
-        os.close(r)
-        _child(scn, entries, plan, w, buf)
+        try:
+            os.close(r)
+            _state["data"] = data
+            _state["XSH"].env["XONSH_DATA_DIR"] = data
+            _state.setdefault("tmpdirs", {})[tmp] = _slot_tmp(tmp, slot)
+        except BaseException:  # noqa: BLE001
+            os._exit(72)
+        _child(scn, entries, plan, w, buf, tmp)
     os.close(w)
+    return {"pid": pid, "r": r}
+
+
+def finish_point(h):
+    r, pid = h["r"], h["pid"]
     chunks = []
     while True:
         b = os.read(r, 65536)
@@ -771,8 +1050,10 @@ def run_point(scn, entries, plan, buf="wt"):
             break
         chunks.append(b)
     os.close(r)
+    h["r"] = None
     _, status = os.waitpid(pid, 0)
-    res = {"hit": None, "done": False, "trace": None, "exc": None, "status": status}
+    h["pid"] = None
+    res = {"hit": None, "done": False, "trace": None, "exc": None, "status": status, "pubs": []}
     for line in b"".join(chunks).decode("utf-8", "replace").splitlines():
         try:
             m = json.loads(line)
@@ -782,9 +1063,34 @@ def run_point(scn, entries, plan, buf="wt"):
             raise common.HarnessError("child: %s" % m["harness"])
         if "hit" in m:
             res["hit"] = m["hit"]
+        if "pub" in m:
+            res["pubs"].append((m["pub"][0], bytes.fromhex(m["pub"][1])))
         if m.get("done"):
             res.update(done=True, trace=m["trace"], exc=m["exc"], thread_exc=m.get("thread_exc"))
     return res
+
+
+def abandon_point(h):
+    """Reap a child whose result is no longer wanted (an earlier point of the batch raised)."""
+    try:
+        if h.get("pid"):
+            try:
+                os.kill(h["pid"], signal.SIGKILL)
+            except OSError:
+                pass
+            os.waitpid(h["pid"], 0)
+    except OSError:
+        pass
+    if h.get("r") is not None:
+        try:
+            os.close(h["r"])
+        except OSError:
+            pass
+
+
+def run_point(scn, entries, plan, buf="wt", tmp="same"):
+    """One point, start to end, in the worker's ordinary data directory.  -> dict(msgs..., status)."""
+    return finish_point(start_point(scn, entries, plan, buf, tmp))
 
 
 # ----------------------------------------------------------------------------------------
@@ -849,28 +1155,43 @@ def model_check_clean(scn, entries, old_states, new_snap):
     return problems
 
 
-def _between(old, new, got):
-    """An operation may rewrite a file more than once, each time atomically (a flush followed by the at-exit flush that unlocks
-    the file and stamps the closing time): the complete version in between has the new command list and, field by field,
-    the old or the new value of everything else."""
-    if not (isinstance(old, dict) and isinstance(new, dict) and isinstance(got, dict)):
-        return False
-    if set(got) - (set(old) | set(new)) or got.get("cmds") != new.get("cmds"):
-        return False
-    for k, v in got.items():
-        if k == "cmds":
+def _is_subseq(xs, ys):
+    it = iter(ys)
+    return all(any(x == y for y in it) for x in xs)
+
+
+def published_versions(pubs, scn=None, old_states=None):
+    """[(rel, bytes)] reported after each completed rename/replace of an un-faulted run -> {rel: [(bytes, state)]}
+    of the COMPLETE ones (an empty or unloadable file renamed into place is not a version anybody may be left with).
+    A version that has lost saved commands the operation is not meant to remove is not accepted either (flush, GC:
+    the old list is a prefix; delete, erasedups: a sub-sequence of the old list + what the session had buffered;
+    delete: every saved command the pattern does not match is still there)."""
+    out = {}
+    kind = scn["op"]["kind"] if scn else None
+    buf = [c["inp"] for c in _buffered_cmds(scn["op"])] if scn else []
+    for rel, raw in pubs:
+        st_ = load_state(rel, raw)
+        if st_[0] != "ok" or any(raw == r for r, _ in out.get(rel, ())):
             continue
-        if k == "ts" and isinstance(v, list) and isinstance(old.get("ts"), list) and isinstance(new.get("ts"), list):
-            if len(v) == 2 and v[0] in (old["ts"][0], new["ts"][0]) and v[1] in (old["ts"][1], new["ts"][1]):
+        so = (old_states or {}).get(rel)
+        if so is not None and so[0] == "ok":
+            o, n = _inps(so[1]), _inps(st_[1])
+            if kind in FLUSH_KINDS + GC_KINDS and n[:len(o)] != o:
                 continue
-            return False
-        if not ((k in old and v == old[k]) or (k in new and v == new[k])):
-            return False
-    return True
+            if kind in ("delete", "erasedups") and not _is_subseq(n, o + buf):
+                continue
+            if kind == "delete":
+                pat = re.compile(scn["op"]["pattern"])
+                if not _is_subseq([x for x in o if not pat.match(x)], n):
+                    continue    # dropped a saved command the pattern does not match
+        out.setdefault(rel, []).append((raw, st_[1]))
+    return out
 
 
-def judge(scn, entries, old_states, new_snap, new_states, snap):
-    """Post-crash state vs. {old, new}.  -> list of (kind, rel, detail)."""
+def judge(scn, entries, old_states, new_snap, new_states, snap, inter=None):
+    """Post-crash state vs. {old, every complete version the un-faulted run put in place by a rename/replace
+    (inter, see published_versions), final}.  -> list of (kind, rel, detail)."""
+    inter = inter or {}
     bad = []
     kind = scn["op"]["kind"]
     for e in entries:
@@ -886,6 +1207,9 @@ def judge(scn, entries, old_states, new_snap, new_states, snap):
             continue
         if new_snap[rel] is not None and raw == new_snap[rel]:
             continue
+        if any(raw == r for r, _ in inter.get(rel, ())):
+            continue            # a complete version between two atomic rewrites of one operation (flush, then the at-exit
+                                # flush; delete, then the flush of what the session had buffered)
         s = load_state(e["path"], raw)
         if s[0] != "ok":
             what = "empty" if len(raw) == 0 else "unloadable"
@@ -900,8 +1224,8 @@ def judge(scn, entries, old_states, new_snap, new_states, snap):
         if (kind in GC_KINDS and so[0] == "ok" and e["spec"]["lock"] == "stale"
                 and s[1] == dict(so[1], locked=False)):
             continue            # the complete unlocked version (GC may remove the file afterwards)
-        if so[0] == "ok" and sn is not None and sn[0] == "ok" and _between(so[1], sn[1], s[1]):
-            continue            # a complete version between two atomic rewrites of one operation (flush, then the at-exit flush)
+        if any(s[1] == st_ for _, st_ in inter.get(rel, ())):
+            continue
         if so[0] == "ok":
             o, n = _inps(so[1]), _inps(s[1])
             lost = [x for x in o if x not in n]
@@ -960,29 +1284,48 @@ def is_f2(scn, e, trace, point, old_state, state):
     return state[1].get("sessionid") == "" and all(x in buf for x in n)
 
 
-def enumerate_points(trace, buf="wt"):
+def enumerate_points(trace, buf="wt", tmp="same", lean=False):
     """Every kill point of one reference trace.  (The state after the LAST op needs no point of its own: the
     reference child itself ends with os._exit right after the operation returns, so its result - checked by
     model_check_clean - is the state a kill at k = N leaves, unflushed buffers included.)"""
     pts = []
     for p in _enumerate_points(trace):
         kind = trace[p["k"]][0]
-        if buf != BUFS[0] and kind in READ_ONLY:
+        first_model = buf == BUFS[0] and tmp == TMPS[0]
+        if not first_model and kind in READ_ONLY and not (buf == BUFS[0] and str(trace[p["k"]][1]).startswith("<tmpdir>")):
             continue        # a read changes nothing on disk and does not depend on the write buffering: the crash
-                            # state equals the one before the next op, the fault outcome the one under BUFS[0]
-        if buf != BUFS[0] and p["mode"] == "fault" and p["errno"] != ERRNOS.get(kind, ("EIO",))[0]:
-            continue        # which errno an op fails with is enumerated in full under BUFS[0]
+                            # state equals the one before the next op, the fault outcome the one under the first
+                            # model (reads of staged files in the temp directory are kept: they only exist here)
+        if not first_model and p["mode"] == "fault" and p["errno"] != ERRNOS.get(kind, ("EIO",))[0]:
+            continue        # which errno an op fails with is enumerated in full under the first model
+        if lean and p["mode"] == "fault" and kind in READ_ONLY:
+            ens = ERRNOS.get(kind, ("EIO",))
+            if p["errno"] != ens[p["k"] % len(ens)]:
+                continue    # quick tier: a failing open-for-reading takes one of its errnos, rotating over the ops
+        if lean and buf != BUFS[0] and p["mode"] == "fault":
+            continue        # quick tier: injected errors under the real io stack only (both temp-dir models); the other
+                            # buffering models differ from it in what a KILL leaves behind, not in error handling
+        if p["mode"] == "crash" and p.get("m") is None and kind in READ_ONLY and p["k"] + 1 < len(trace):
+            continue        # between this point and the crash point before the next op only a read happens: same state
+        if p["mode"] == "crash" and p.get("m") == 0:
+            continue        # no byte written = the crash point before the op
+        nb = trace[p["k"]][2] or 0
+        if lean and not first_model and p.get("m") is not None and nb > 64 and p["m"] not in (1, nb // 2, nb - 1):
+            continue        # quick tier: the full list of partial lengths under the first model only
         if buf != "wt":
             p["buf"] = buf
+        if tmp != "same":
+            p["tmp"] = tmp
         pts.append(p)
     return pts
 
 
 def _enumerate_points(trace):
     pts = []
-    for k, (kind, label, nb) in enumerate(trace):
+    for k, t in enumerate(trace):
+        kind, label, nb = t[:3]
         pts.append({"mode": "crash", "k": k, "m": None})
-        if kind in ("write", "oswrite") and nb is not None:
+        if kind in WRITE_OPS and nb is not None:
             if nb <= 64:
                 ms = range(0, nb)
             else:
@@ -1010,9 +1353,11 @@ def point_nontrivial(trace, point):
 class Prepared:
     """A scenario with its un-faulted reference run."""
 
-    def __init__(self, scn, buf="wt"):
+    def __init__(self, scn, buf="wt", tmp="same"):
         self.scn = scn
         self.buf = buf
+        self.tmp = tmp
+        self._slot_ents = {}
         self.entries = build_scenario(scn)
         self.old_states = {}
         materialize(self.entries)
@@ -1020,13 +1365,14 @@ class Prepared:
             self.old_states[e["rel"]] = load_state(e["path"], e["bytes"])
             if not e["spec"].get("corrupt") and self.old_states[e["rel"]][0] != "ok":
                 raise common.HarnessError("generated intact history file does not load: %s" % (self.old_states[e["rel"]][1],))
-        ref = run_point(scn, self.entries, None, buf)
+        ref = run_point(scn, self.entries, None, buf, tmp)
         if not ref["done"]:
             raise common.HarnessError("un-faulted reference run did not finish (status %r)" % ref["status"])
         self.trace = ref["trace"]
         self.ref_exc = ref["exc"]
         self.ref_thread_exc = ref.get("thread_exc") or []
         self.new_snap = snapshot(self.entries)
+        self.inter = published_versions(ref.get("pubs") or (), scn, self.old_states)
         ref_strays = stray_history_files(self.entries)
         self.new_states = {}
         for e in self.entries:
@@ -1050,29 +1396,51 @@ class Prepared:
 
     def run(self, point, tolerate=True, stats=None):
         """-> (list of Failure, tolerated finding ids)"""
-        scn = self.scn
+        return self.end(self.begin(point, 0), tolerate, stats)
+
+    def _slot_entries(self, slot):
+        if not slot:
+            return self.entries
+        if slot not in self._slot_ents:
+            self._slot_ents[slot] = build_scenario(self.scn, _slot_data(slot))
+        return self._slot_ents[slot]
+
+    def begin(self, point, slot=0):
+        """Start the child of one point in in-flight slot `slot`; -> handle for end() (None: nothing to run)."""
         k = point["k"]
         if not (0 <= k < len(self.trace)):
+            return None
+        if point.get("buf", "wt") != self.buf or point.get("tmp", "same") != self.tmp:
+            raise common.HarnessError("point %r belongs to another model than %r / %r" % (point, self.buf, self.tmp))
+        ents = self._slot_entries(slot)
+        h = start_point(self.scn, ents, point, self.buf, self.tmp, _slot_data(slot) if slot else None, slot)
+        h.update(point=point, slot=slot, ents=ents)
+        return h
+
+    def end(self, h, tolerate=True, stats=None):
+        """Wait for the child of begin(), judge what it left.  -> (list of Failure, tolerated finding ids)"""
+        if h is None:
             return [], []
-        if point.get("buf", "wt") != self.buf:
-            raise common.HarnessError("point %r belongs to another buffering model than %r" % (point, self.buf))
-        res = run_point(scn, self.entries, point, self.buf)
+        scn, point, ents, slot = self.scn, h["point"], h["ents"], h["slot"]
+        data = _slot_data(slot) if slot else None
+        k = point["k"]
+        res = finish_point(h)
         if res["hit"] is None or res["hit"][1:] != self.trace[k][:2]:
-            res = run_point(scn, self.entries, point, self.buf)
+            res = finish_point(start_point(scn, ents, point, self.buf, self.tmp, data, slot))
             if res["hit"] is None or res["hit"][1:] != self.trace[k][:2]:
                 raise common.HarnessError("op numbering is not reproducible: point %r hit %r, reference op %r" % (
                     point, res["hit"], self.trace[k]))
-        snap = snapshot(self.entries)
+        snap = snapshot(ents)
         if point["mode"] == "crash" and res["done"]:
             raise common.HarnessError("crash point %r: the child finished normally" % (point,))
         if os.WIFSIGNALED(res["status"]) and stats is not None:
             stats.inconclusive += 1
             stats.notes.append("child killed by signal %d at %r (%s)" % (os.WTERMSIG(res["status"]), point, scn["op"]["kind"]))
-        bad = judge(scn, self.entries, self.old_states, self.new_snap, self.new_states, snap)
+        bad = judge(scn, self.entries, self.old_states, self.new_snap, self.new_states, snap, self.inter)
         fails, tol = [], []
         by_rel = {e["rel"]: e for e in self.entries}
         strays = {}
-        for rel, raw in stray_history_files(self.entries):
+        for rel, raw in stray_history_files(ents, data):
             st_ = load_state(rel, raw)
             if st_[0] != "ok":      # a staging file under a name xonsh enumerates as history, left half-written
                 strays[rel] = raw
@@ -1093,6 +1461,8 @@ class Prepared:
                 finding = "C13-F1"
             elif is_f2(scn, e, self.trace, point, self.old_states[rel], state):
                 finding = "C13-F2"
+            if finding and finding not in _open_findings():
+                finding = None          # repaired in the tree: seeing its shape again is a violation like any other
             if finding and tolerate:
                 tol.append(finding)
                 continue
@@ -1103,6 +1473,8 @@ class Prepared:
             where += {"real": " [real buffering: %d-byte BufferedWriter, ops = raw writes]" % _state["bufsize"],
                       "huge": " [buffering model: nothing reaches the file before flush/close]",
                       "wt": " [buffering model: every completed write() is on disk]"}[self.buf]
+            if self.tmp == "xdev":
+                where += " [$TMPDIR on another file system than the history directory]"
             fails.append(Failure(kind, {"scenario": scn, "point": point},
                                  "%s: %s; %s" % (scn["op"]["kind"], where, detail), finding=finding,
                                  bucket="%s:%s:%s" % (finding or ("unloadable" if kind == "empty" else kind),
@@ -1118,16 +1490,54 @@ def scn_key(scn):
     return json.dumps(scn, sort_keys=True)
 
 
-def explore_scenario(scn, stats, tolerate=True, only=None):
-    """Enumerate every point of one scenario under every buffering model (only=(mode, op kind at k, buf)
-    restricts the enumeration; used while shrinking).  Returns the list of failures."""
+def _run_batched(P, pts, tolerate, stats):
+    """Run the points of one reference trace, _slots() of them in flight at a time; yields (point, failures,
+    tolerated) in enumeration order."""
+    K = _slots()
+    for i in range(0, len(pts), K):
+        hs = []
+        try:
+            for j, pt in enumerate(pts[i:i + K]):
+                hs.append(P.begin(pt, j))
+            for n, (pt, h) in enumerate(zip(pts[i:i + K], hs)):
+                hs[n] = None
+                fs, tol = P.end(h, tolerate=tolerate, stats=stats)
+                yield pt, fs, tol
+        finally:
+            for h in hs:
+                if h is not None:
+                    abandon_point(h)
+
+
+def explore_scenario(scn, stats, tolerate=True, only=None, xdev_bufs=BUFS, lean=False):
+    """Enumerate every point of one scenario under every temp-dir and buffering model (only=(mode, op kind at
+    k, buf, tmp) restricts the enumeration; used while shrinking).  Returns the list of failures."""
     kind = scn["op"]["kind"]
     key0 = scn_key(scn)
     fails = []
     first = None
     traces = []
-    for buf in (BUFS if only is None else (only[2],)):
-        P = Prepared(scn, buf)
+    models = ([(tmp, buf) for tmp in TMPS for buf in (BUFS if tmp == TMPS[0] else xdev_bufs)] if only is None
+              else [((tuple(only) + ("same",))[3], only[2])])
+    skip_tmp = set()
+    for tmp, buf in models:
+        if tmp in skip_tmp:
+            continue
+        if _tmpdir(tmp) is None:
+            # no second file system on this machine: the dimension is reported as not covered
+            skip_tmp.add(tmp)
+            stats.hist["tmp-model-unavailable:" + tmp] += 1
+            continue
+        P = Prepared(scn, buf, tmp)
+        if tmp != TMPS[0] and buf == BUFS[0] and only is None:
+            if first is not None and P.trace == first.trace and P.new_snap == first.new_snap and P.ref_exc == first.ref_exc:
+                # the operation never touches the process-wide temp directory (same calls, same outcomes, same result
+                # as with $TMPDIR on the history file system): nothing depends on where it is
+                skip_tmp.add(tmp)
+                stats.hist["tmp-model-coincides:" + tmp] += 1
+                stats.case((key0, "clean", buf, tmp), False, ["op:" + kind, "mode:none", "tmp:" + tmp])
+                continue
+            stats.hist["tmp-model-enumerated:" + tmp] += 1
         if first is None:
             first = P
             nmut = sum(1 for t in P.trace if t[0] in MUTATING)
@@ -1150,31 +1560,36 @@ def explore_scenario(scn, stats, tolerate=True, only=None):
         elif P.new_snap != first.new_snap:
             stats.hist["clean-result-differs-by-buffering"] += 1
         # the un-faulted run is a point of its own
-        stats.case((key0, "clean", buf), False, ["op:" + kind, "mode:none", "buf:" + buf])
+        stats.case((key0, "clean", buf, tmp), False, ["op:" + kind, "mode:none", "buf:" + buf, "tmp:" + tmp])
         if P.clean_problems:
-            f = Failure("no-fault-run-damages", {"scenario": scn, "point": None, "buf": buf}, "; ".join(P.clean_problems[:3]),
-                        bucket="clean:" + op_family(kind))
+            case = {"scenario": scn, "point": None, "buf": buf}
+            if tmp != "same":
+                case["tmp"] = tmp
+            f = Failure("no-fault-run-damages", case, "; ".join(P.clean_problems[:3]) + (
+                " [$TMPDIR on another file system than the history directory]" if tmp == "xdev" else ""),
+                bucket="clean:" + op_family(kind))
             fails.append(f)
-        if P.trace in traces:
+        if (P.trace, P.new_snap) in traces:
             # same sequence of ops (kinds, files, byte counts) as under a model already enumerated: the payloads of
             # this scenario make the two models coincide, every point would repeat the same execution
             stats.hist["buf-model-coincides:" + buf] += 1
             continue
-        traces.append(P.trace)
+        traces.append((P.trace, P.new_snap))
         stats.hist["buf-model-enumerated:" + buf] += 1
-        for point in enumerate_points(P.trace, buf):
-            if only is not None and (point["mode"], P.trace[point["k"]][0]) != tuple(only[:2]):
-                continue
-            fs, tol = P.run(point, tolerate=tolerate, stats=stats)
+        pts = [pt for pt in enumerate_points(P.trace, buf, tmp, lean)
+               if only is None or (pt["mode"], P.trace[pt["k"]][0]) == tuple(only[:2])]
+        for point, fs, tol in _run_batched(P, pts, tolerate, stats):
             nt = point_nontrivial(P.trace, point)
             mode = ("partial" if point.get("m") is not None else "crash") if point["mode"] == "crash" else "fault:" + point["errno"]
-            labels = ["op:" + kind, "mode:" + mode, "at:" + P.trace[point["k"]][0], "buf:" + buf]
+            labels = ["op:" + kind, "mode:" + mode, "at:" + P.trace[point["k"]][0], "buf:" + buf, "tmp:" + tmp]
+            if len(P.trace[point["k"]]) > 3:
+                labels.append("at-naturally-failing:%s:%s" % (P.trace[point["k"]][0], P.trace[point["k"]][3]))
             if point["mode"] == "crash" and point.get("m") is None and point["k"] > 0:
                 labels.append("crash-after:%s/%s" % (P.trace[point["k"] - 1][0], buf))
             for t in tol:
                 stats.excluded_known[t] += 1
                 labels.append("tolerated:" + t)
-            stats.case((key0, buf, point["mode"], point["k"], point.get("m"), point.get("errno")), nt, labels,
+            stats.case((key0, buf, tmp, point["mode"], point["k"], point.get("m"), point.get("errno")), nt, labels,
                        sample={"scenario": scn, "point": point, "op_at_k": P.trace[point["k"]]} if nt else None,
                        max_per_label=1)
             fails.extend(fs)
@@ -1338,27 +1753,38 @@ def shrink_scenario(scn, bucket, only, seconds=15.0):
 
 
 def worker_json(arg):
-    scns, scratch = arg
+    scns, scratch, opts = arg
     _setup(scratch)
+    try:
+        return _worker_json(scns, opts)
+    finally:
+        _drop_tmpdirs()
+
+
+def _worker_json(scns, opts):
     stt = Stats()
     found = {}
     t0 = _real_time.time()
     for scn in scns:
-        for f in explore_scenario(scn, stt):
+        for f in explore_scenario(scn, stt, xdev_bufs=tuple(opts.get("xdev_bufs") or BUFS), lean=bool(opts.get("lean"))):
             found.setdefault(f.bucket, f)
     stt.hist["worker-seconds:json"] += int(_real_time.time() - t0)
-    out = []
-    budget = _real_time.time() + 8.0            # minimisation must not push a failing quick run over its time
-    for n, (b, f) in enumerate(found.items()):
-        left = budget - _real_time.time()
-        if n < 3 and left > 1.0 and f.case.get("point") is not None:
-            g = shrink_scenario(f.case["scenario"], b, (f.case["point"]["mode"], b.rsplit(":", 1)[1],
-                                                         f.case["point"].get("buf", "wt")), seconds=min(5.0, left))
-            if g is not None:
-                f = g
-        out.append(f)
-    stt.failures = out
+    stt.failures = list(found.values())         # minimised afterwards, one task per distinct bucket (main)
     return stt
+
+
+def worker_shrink(arg):
+    """Minimise one failure (first of its bucket); -> Failure json."""
+    fj, seconds, scratch = arg
+    _setup(scratch)
+    try:
+        f = Failure.from_json(fj)
+        pt = f.case["point"]
+        g = shrink_scenario(f.case["scenario"], f.bucket, (pt["mode"], f.bucket.rsplit(":", 1)[1], pt.get("buf", "wt"),
+                                                           pt.get("tmp", "same")), seconds=seconds)
+        return (g or f).to_json()
+    finally:
+        _drop_tmpdirs()
 
 
 def check_case(case, tolerate=False):
@@ -1366,7 +1792,11 @@ def check_case(case, tolerate=False):
     if case.get("sqlite") or case.get("strace"):
         return check_strace_case(case)
     scn = case["scenario"]
-    P = Prepared(scn, (case.get("point") or case).get("buf", "wt"))     # replays from before the buffering models: wt
+    pt = case.get("point") or case
+    if _tmpdir(pt.get("tmp", "same")) is None:
+        print("replay: temp-dir model %r is not available on this machine (no second file system)" % pt.get("tmp"))
+        return None
+    P = Prepared(scn, pt.get("buf", "wt"), pt.get("tmp", "same"))       # replays from before the models: wt / same
     if case.get("point") is None:
         if P.clean_problems:
             return Failure("no-fault-run-damages", case, "; ".join(P.clean_problems[:3]))
@@ -1378,7 +1808,8 @@ def check_case(case, tolerate=False):
 # ----------------------------------------------------------------------------------------
 # syscall-level pass (strace): SQLite, and the JSON backend again
 
-STRACE_CALLS = "write,pwrite64,pwritev,pwritev2,writev,fsync,fdatasync,ftruncate,truncate,unlink,unlinkat,rename,renameat,renameat2"
+STRACE_CALLS = ("write,pwrite64,pwritev,pwritev2,writev,sendfile,copy_file_range,fsync,fdatasync,ftruncate,truncate,unlink,"
+                "unlinkat,rename,renameat,renameat2")
 SQL_COLS = "inp, rtn, tsb, tse, sessionid"
 
 
@@ -1442,6 +1873,16 @@ def _strace_cmd(specfile, inject=None, tracefile=None):
     return cmd
 
 
+def _strace_tmpdir(case):
+    """$TMPDIR of the driver process for this case (None: leave the environment alone)."""
+    if case.get("tmp") != "xdev":
+        return None
+    d = _tmpdir("xdev")
+    if d is None:
+        raise common.HarnessError("strace case wants $TMPDIR on another file system, none available")
+    return os.path.join(d, "strace")
+
+
 def _prepare_strace_dir(case, ddir):
     shutil.rmtree(ddir, ignore_errors=True)
     os.makedirs(ddir)
@@ -1449,16 +1890,27 @@ def _prepare_strace_dir(case, ddir):
         sqlite_build(os.path.join(ddir, "xonsh-history.sqlite"), case)
         return None
     # JSON: reuse the scenario machinery with this directory as data dir
+    if case.get("tmp") == "xdev":
+        _wipe(_strace_tmpdir(case))
     _state["data"] = os.path.join(ddir, "data")
     entries = build_scenario(case["scenario"])
     materialize(entries)
     return entries
 
 
+def _run_driver(case, ddir, record):
+    """The driver without strace, recording the versions it puts in place (see strace_reference)."""
+    spec = os.path.join(ddir, "spec.json")
+    with open(spec, "w") as f:
+        json.dump({"case": case, "dir": ddir, "tmpdir": _strace_tmpdir(case), "record": record}, f)
+    return subprocess.run([sys.executable, os.path.abspath(__file__), "--driver", spec], env=_driver_env(ddir),
+                          stdin=subprocess.DEVNULL, stdout=subprocess.DEVNULL, stderr=subprocess.PIPE, timeout=120)
+
+
 def _run_strace(case, ddir, inject=None, tracefile=None):
     spec = os.path.join(ddir, "spec.json")
     with open(spec, "w") as f:
-        json.dump({"case": case, "dir": ddir}, f)
+        json.dump({"case": case, "dir": ddir, "tmpdir": _strace_tmpdir(case)}, f)
     p = subprocess.run(_strace_cmd(spec, inject, tracefile), env=_driver_env(ddir), stdin=subprocess.DEVNULL,
                        stdout=subprocess.DEVNULL, stderr=subprocess.PIPE, timeout=120)
     return p
@@ -1474,6 +1926,7 @@ def _trace_points(tracefile):
     counts = {}
     pts = set()
     ncalls = 0
+    seq = []
     with open(tracefile, errors="replace") as f:
         for line in f:
             m = pat.match(line)
@@ -1488,9 +1941,10 @@ def _trace_points(tracefile):
                 if started:
                     pts.add((name, c))
                     ncalls += 1
+                    seq.append(name + (":" + line.rsplit("=", 1)[1].split()[1] if " = -1 " in line else ""))
     if not started:
         raise common.HarnessError("strace trace has no operation marker")
-    return sorted(pts), ncalls
+    return sorted(pts), ncalls, seq
 
 
 def strace_reference(case, ddir):
@@ -1504,11 +1958,31 @@ def strace_reference(case, ddir):
             raise common.HarnessError("generated SQLite database is not sound: %r" % (integ,))
         sqlite_build(db, case)
         ref["old"] = old
+    if not case.get("sqlite"):
+        # which complete versions does the un-faulted driver put in place, step by step (the operation, then whatever
+        # the exiting session does: the at-exit flush)?  Recorded in a run of its own - not traced, so that the
+        # recording does not shift strace's syscall counters - by a wrapper around os.replace / os.rename only.
+        pubfile = os.path.join(os.path.dirname(ddir), os.path.basename(ddir) + ".pub")
+        if os.path.exists(pubfile):
+            os.remove(pubfile)
+        p = _run_driver(case, ddir, record=pubfile)
+        if p.returncode != 0:
+            raise common.HarnessError("recording run of the driver failed (%d): %s" % (p.returncode, p.stderr.decode()[-400:]))
+        pubs = []
+        if os.path.exists(pubfile):
+            with open(pubfile) as f:
+                for line in f:
+                    rel, hx = json.loads(line)
+                    pubs.append((rel, bytes.fromhex(hx)))
+            os.remove(pubfile)
+        ref["inter"] = published_versions(pubs, case["scenario"], {e["rel"]: load_state(e["path"], e["bytes"]) for e in entries})
+        ref["record_snap"] = snapshot(entries)
+        entries = _prepare_strace_dir(case, ddir)
     tf = os.path.join(os.path.dirname(ddir), os.path.basename(ddir) + ".trace")
     p = _run_strace(case, ddir, None, tf)
     if p.returncode != 0:
         raise common.HarnessError("strace reference run failed (%d): %s" % (p.returncode, p.stderr.decode()[-400:]))
-    ref["points"], ref["ncalls"] = _trace_points(tf)
+    ref["points"], ref["ncalls"], ref["seq"] = _trace_points(tf)
     os.remove(tf)
     if case.get("sqlite"):
         integ, new = sqlite_rows(os.path.join(ddir, "xonsh-history.sqlite"))
@@ -1518,6 +1992,8 @@ def strace_reference(case, ddir):
     else:
         ref["entries"] = entries
         ref["new_snap"] = snapshot(entries)
+        if ref["new_snap"] != ref["record_snap"]:
+            raise common.HarnessError("the recording run and the traced run of the driver end in different files")
         ref["old_states"] = {e["rel"]: load_state(e["path"], e["bytes"]) for e in entries}
         ref["new_states"] = {e["rel"]: load_state(e["path"], ref["new_snap"][e["rel"]]) for e in entries
                              if ref["new_snap"][e["rel"]] is not None}
@@ -1557,7 +2033,7 @@ def strace_point(case, ddir, ref, K):
         return None
     entries = ref["entries"]
     snap = snapshot(entries)
-    bad = judge(case["scenario"], entries, ref["old_states"], ref["new_snap"], ref["new_states"], snap)
+    bad = judge(case["scenario"], entries, ref["old_states"], ref["new_snap"], ref["new_states"], snap, ref.get("inter"))
     by_rel = {e["rel"]: e for e in entries}
     for kind, rel, detail in bad:
         e = by_rel[rel]
@@ -1565,8 +2041,12 @@ def strace_point(case, ddir, ref, K):
         if (case["scenario"]["op"]["kind"] in GC_KINDS and e["spec"]["lock"] == "stale" and not e["spec"].get("corrupt")
                 and kind in ("empty", "unloadable")):
             finding = "C13-F1"      # same defect seen at syscall level (the window is the in-place rewrite)
+        if finding and finding not in _open_findings():
+            finding = None
         return Failure("strace-" + kind, dict(full, strace=True), "kill at %s of %s: %s" % (
-            K, case["scenario"]["op"]["kind"], detail), finding=finding,
+            K, case["scenario"]["op"]["kind"], detail + (
+                " [$TMPDIR on another file system than the history directory]" if case.get("tmp") == "xdev" else "")),
+            finding=finding,
             bucket="strace:%s:%s" % (finding or kind, case["scenario"]["op"]["kind"]))
     return None
 
@@ -1576,6 +2056,9 @@ def check_strace_case(case):
         raise common.HarnessError("_setup() must run first")
     ddir = os.path.join(_state["base"], "strace-replay")
     data0 = _state["data"]
+    if case.get("tmp") == "xdev" and _tmpdir("xdev") is None:
+        print("replay: no second file system on this machine, the case cannot be replayed")
+        return None
     try:
         ref = strace_reference(case, ddir)
         Ks = [case["K"]] if case.get("K") else ref["points"]
@@ -1622,44 +2105,94 @@ def worker_strace(arg):
     ddir = os.path.join(_state["base"], "strace")
     data0 = _state["data"]
     t0 = _real_time.time()
-    for case in cases:
-        ref = strace_reference(case, ddir)
-        opk = case["op"]["kind"] if case.get("sqlite") else case["scenario"]["op"]["kind"]
-        fam = "strace-sqlite" if case.get("sqlite") else "strace-json"
-        stt.hist[fam + "-scenarios"] += 1
-        stt.hist["%s-op:%s" % (fam, opk)] += 1
-        if case.get("sqlite"):
-            stt.hist["strace-sqlite-%s" % ("legacy" if case.get("legacy") else "wal")] += 1
-            if ref["new"] == ref["old"]:
-                stt.hist["strace-sqlite-noop"] += 1
-        Ks = list(ref["points"])
-        stt.hist[fam + "-kill-points"] += len(Ks)
-        if max_points and len(Ks) > max_points:
-            step = len(Ks) / float(max_points)
-            Ks = [Ks[int(i * step + (seed + len(Ks)) % step)] for i in range(max_points)]
-            stt.hist[fam + "-sampled"] += 1
-        key0 = json.dumps(case, sort_keys=True)
-        for K in Ks:
-            f = strace_point(case, ddir, ref, K)
-            nt = True               # only kill points after the operation started are enumerated
-            labels = [fam, "op:%s-%s" % (fam, opk), "strace-at:" + K[0]]
-            if f is not None and f.finding:
-                stt.excluded_known[f.finding] += 1
-                labels.append("tolerated:" + f.finding)
-                f = None
-            stt.case((key0, "strace", K), nt, labels, sample=dict(case, K=list(K), of=len(ref["points"])),
-                     max_per_label=1)
-            if f is not None:
-                stt.fail(f)
-                break
-    _state["data"] = data0
-    shutil.rmtree(ddir, ignore_errors=True)
+    try:
+        for case0 in cases:
+            variants = [case0]
+            if case0.get("strace") and not case0.get("tmp"):
+                # JSON: once more with $TMPDIR on another file system; enumerated when the syscalls or the result differ
+                if _tmpdir("xdev") is not None:
+                    variants.append(dict(case0, tmp="xdev"))
+                else:
+                    stt.hist["strace-json-tmp-model-unavailable:xdev"] += 1
+            ref0 = None
+            for case in variants:
+                ref = strace_reference(case, ddir)
+                if case is not case0:
+                    if ref["seq"] == ref0["seq"] and ref["new_snap"] == ref0["new_snap"]:
+                        stt.hist["strace-json-tmp-model-coincides:xdev"] += 1
+                        continue
+                    stt.hist["strace-json-tmp-model-enumerated:xdev"] += 1
+                ref0 = ref0 or ref
+                _strace_enumerate(stt, seed, case, ddir, ref, max_points)
+    finally:
+        _state["data"] = data0
+        shutil.rmtree(ddir, ignore_errors=True)
+        _drop_tmpdirs()
     stt.hist["worker-seconds:strace"] += int(_real_time.time() - t0)
     return stt
 
 
+def _strace_enumerate(stt, seed, case, ddir, ref, max_points):
+    opk = case["op"]["kind"] if case.get("sqlite") else case["scenario"]["op"]["kind"]
+    fam = "strace-sqlite" if case.get("sqlite") else "strace-json"
+    stt.hist[fam + "-scenarios"] += 1
+    stt.hist["%s-op:%s" % (fam, opk)] += 1
+    if case.get("sqlite"):
+        stt.hist["strace-sqlite-%s" % ("legacy" if case.get("legacy") else "wal")] += 1
+        if ref["new"] == ref["old"]:
+            stt.hist["strace-sqlite-noop"] += 1
+    Ks = list(ref["points"])
+    stt.hist[fam + "-kill-points"] += len(Ks)
+    if max_points and len(Ks) > max_points:
+        step = len(Ks) / float(max_points)
+        Ks = [Ks[int(i * step + (seed + len(Ks)) % step)] for i in range(max_points)]
+        stt.hist[fam + "-sampled"] += 1
+    key0 = json.dumps(case, sort_keys=True)
+    for K in Ks:
+        f = strace_point(case, ddir, ref, K)
+        nt = True               # only kill points after the operation started are enumerated
+        labels = [fam, "op:%s-%s" % (fam, opk), "strace-at:" + K[0]]
+        if case.get("tmp"):
+            labels.append("strace-tmp:" + case["tmp"])
+        if f is not None and f.finding:
+            stt.excluded_known[f.finding] += 1
+            labels.append("tolerated:" + f.finding)
+            f = None
+        stt.case((key0, "strace", K), nt, labels, sample=dict(case, K=list(K), of=len(ref["points"])),
+                 max_per_label=1)
+        if f is not None:
+            stt.fail(f)
+            break
+
+
 # ----------------------------------------------------------------------------------------
 # driver process (runs under strace)
+
+
+def _install_recorder(root, pubfile):
+    """Driver, recording run: after every completed os.replace / os.rename onto a file below the data directory,
+    append [rel, content] to pubfile.  Nothing else is touched; stays active until the process is gone (the
+    at-exit flush of the session is part of what the driver does)."""
+    root = os.path.realpath(root)
+    o_open = open
+
+    def wrap(orig):
+        def w(src, dst, *a, **kw):
+            r = orig(src, dst, *a, **kw)
+            try:
+                p = os.path.realpath(os.fsdecode(os.fspath(dst)))
+                if p.startswith(root + os.sep) and os.path.isfile(p):
+                    with o_open(p, "rb") as f:
+                        raw = f.read()
+                    with o_open(pubfile, "a") as f:
+                        f.write(json.dumps([os.path.relpath(p, root), raw.hex()]) + "\n")
+            except (OSError, TypeError, ValueError):
+                pass
+            return r
+        return w
+
+    os.replace = wrap(os.replace)
+    os.rename = wrap(os.rename)
 
 
 def driver_main(specfile):
@@ -1699,6 +2232,9 @@ def driver_main(specfile):
     scn = case["scenario"]
     entries = build_scenario(scn)
     hist = _make_history(scn, entries)
+    _use_tmpdir(spec.get("tmpdir"))
+    if spec.get("record"):
+        _install_recorder(_state["data"], spec["record"])
     os.getppid()
     try:
         _perform(scn, hist)
@@ -1733,25 +2269,57 @@ def _dev_stride():
         return 1
 
 
+def _shrink_stage(run, procs):
+    """Minimise the failure that will be reported for each bucket (at most 6, in parallel, 3 seconds each)."""
+    fl = run.stats.failures
+    firsts = {}
+    for i, f in enumerate(fl):
+        if f.bucket not in firsts and not (f.finding and f.finding in run.known_open):
+            firsts[f.bucket] = i
+    todo = [i for i in firsts.values() if isinstance(fl[i].case, dict) and fl[i].case.get("point") is not None
+            and not fl[i].case.get("strace")][:6]
+    if not todo:
+        return
+    res = common.pool_map(run, __name__, "worker_shrink", [(fl[i].to_json(), 3.0, run.scratch) for i in todo], procs=procs)
+    for i, fj in zip(todo, res):
+        fl[i] = Failure.from_json(fj)
+
+
 def main(run):
     _setup(run.scratch)
-    common.replay_tier(run, _replay_case)
+    try:
+        common.replay_tier(run, _replay_case)
+        xdev = _tmpdir("xdev")
+        run.extra["tmpdir_models"] = {
+            "same": "tempfile.tempdir / $TMPDIR on the file system of the history directory",
+            "xdev": ("on another file system: %s (st_dev %d, history directory st_dev %d)" % (
+                os.path.dirname(xdev), os.stat(xdev).st_dev, os.stat(_state["data"]).st_dev)) if xdev else "NOT COVERED"}
+        if xdev is None:
+            run.stats.notes.append("temp-dir model 'xdev' NOT covered: none of %s is a writable directory on another file "
+                                   "system than %s" % (", ".join(XDEV_CANDIDATES), _state["data"]))
+    finally:
+        _drop_tmpdirs()
     procs = max(1, min(16, int(os.environ.get("VERIF_PROCS") or 16)))
     nw = 16
     stride = _dev_stride()
     if stride > 1:
         run.stats.notes.append("development run: VERIF_C13_STRIDE=%d" % stride)
     t0 = _real_time.time()
-    scns = generate_scenarios(run.seed, run.n(140, 5000) // stride)
+    scns = generate_scenarios(run.seed, run.n(128, 5000) // stride)
     t1 = _real_time.time()
-    common.pool_map(run, __name__, "worker_json", [(scns[i::nw], run.scratch) for i in range(nw) if scns[i::nw]], procs=procs)
+    # a scenario whose operation uses the process-wide temp directory is enumerated again with $TMPDIR on another
+    # file system: under the real buffering model in quick, under all three in thorough
+    opts = {"xdev_bufs": list(run.n(BUFS[:1], BUFS)), "lean": run.tier != "thorough"}
+    nwj = 32                                    # small tasks: the pool stays busy to the end
+    common.pool_map(run, __name__, "worker_json", [(scns[i::nwj], run.scratch, opts) for i in range(nwj) if scns[i::nwj]], procs=procs)
+    _shrink_stage(run, procs)
     run.extra["exhaustive_subspace"] = ("per explored scenario and buffering model (real / huge / write-through): every crash "
                                         "point before each file-system op (raw-level writes in the real and huge models), "
                                         "every listed partial-write length, every single injected OSError")
     run.extra["default_write_buffer_bytes"] = _state["bufsize"]
     t2 = _real_time.time()
     if have_strace():
-        n_sql, n_json, maxp = run.n(16, 400 // stride), run.n(9, 200 // stride), run.n(24, 0)
+        n_sql, n_json, maxp = run.n(16, 400 // stride), run.n(9, 200 // stride), run.n(18, 0)
         cases = strace_cases(run.seed, n_sql, n_json)
         chunks = [cases[i::nw] for i in range(nw)]
         common.pool_map(run, __name__, "worker_strace",
@@ -1774,7 +2342,13 @@ def main(run):
         "a buffering model whose un-faulted op trace equals one already enumerated for the scenario is not enumerated "
         "again; in the second and third model, points at read-only ops are skipped (a read neither changes the disk "
         "nor depends on write buffering) and each op is failed with one errno instead of every listed one",
-        "one fault per run; the failing call raises OSError and, for write(), leaves half of its bytes behind",
+        "the process-wide temp directory is placed by the harness: on the history file system, and on another one "
+        "(tmpfs) to exercise EXDEV from rename/replace and copy fall-backs; an operation whose un-faulted run is "
+        "identical in both (same ops, same outcomes, same files) does not use it and is enumerated once",
+        "quick tier only: outside the first model 3 of the 6 partial lengths, injected errors only under the real io "
+        "stack, one rotating errno per failing open-for-reading; a crash point before a read-only op is represented by "
+        "the crash point before the following op (same on-disk state)",
+        "one fault per run; the failing call raises OSError and, for write() / sendfile(), leaves half of its bytes behind",
         "a member that was already corrupt before the operation is only required to stay as it was or become the "
         "version the un-faulted run writes",
         "history clear and GC's deliberate removal of whole files are outside the property (C14 covers the latter)",
@@ -1787,7 +2361,10 @@ def replay(run, path):
         d = json.load(f)
     case = d.get("case", d)
     _setup(run.scratch)
-    f = check_case(case, tolerate=False)
+    try:
+        f = check_case(case, tolerate=False)
+    finally:
+        _drop_tmpdirs()
     if f is None:
         print("replay: property holds on this case")
         return 0
